@@ -87,12 +87,50 @@ func (x *Exec) globalConst(s *State, g *ssa.Global, T types.Type) (*Val, bool) {
 	return &Val{T: T, Ptr: &Ptr{Obj: id, Nil: "false"}}, true
 }
 
+// Range over a Go map (A-maprange): the iteration is abstracted to "any sequence of keys that were present when the
+// range statement started": Next yields an arbitrary ok, and when ok an arbitrary key of the snapshot with the value the
+// snapshot holds for it. This over-approximates every iteration order and every effect of deleting entries during the
+// loop; it does NOT cover entries inserted into the ranged map by the loop body (Go may or may not yield those), which
+// is recorded as an assumption wherever this summary fires.
+var rangeSnaps = map[*ssa.Range]string{}
+
 func (x *Exec) rangeInit(s *State, env map[ssa.Value]*Val, in *ssa.Range) *Val {
-	x.fail("range over map/string not supported yet in %s", x.fn.Name())
-	return &Val{T: in.Type(), S: "0"}
+	mt, ok := in.X.Type().Underlying().(*types.Map)
+	if !ok {
+		x.fail("range over string not supported yet in %s", x.fn.Name())
+		return &Val{T: in.Type(), S: "0"}
+	}
+	mv := x.val(s, env, in.X)
+	if mv.Ptr == nil {
+		x.fail("range over a map value without object in %s", x.fn.Name())
+		return &Val{T: in.Type(), S: "0"}
+	}
+	ms := x.mapSort(mt)
+	snap := x.name(s, "rangesnap", ms, x.loadTerm(s, mv.Ptr))
+	rangeSnaps[in] = snap
+	x.c.note("A-maprange: range over a Go map yields an arbitrary sequence of the keys present at its start (body must not insert into the ranged map)")
+	return &Val{T: in.Type(), S: snap}
 }
 
 func (x *Exec) rangeNext(s *State, env map[ssa.Value]*Val, in *ssa.Next) *Val {
-	x.fail("range over map/string not supported yet in %s", x.fn.Name())
-	return x.freshVal(s, in.Type(), "next")
+	rng, ok := in.Iter.(*ssa.Range)
+	if !ok || in.IsString {
+		x.fail("range over string not supported yet in %s", x.fn.Name())
+		return x.freshVal(s, in.Type(), "next")
+	}
+	mt := rng.X.Type().Underlying().(*types.Map)
+	ms := x.mapSort(mt)
+	snap, have := rangeSnaps[rng]
+	if !have {
+		// the loop head is reached with a havocked state: the snapshot name is a constant declared at rangeInit
+		x.fail("map range without snapshot in %s", x.fn.Name())
+		return x.freshVal(s, in.Type(), "next")
+	}
+	okT := x.fresh(s, "range_ok", "Bool")
+	kT := x.fresh(s, "range_key", x.c.sortOf(mt.Key()))
+	x.assumeInv(s, mt.Key(), kT)
+	s.assume(implies(okT, sx("select", sx("dom_"+ms, snap), kT)))
+	vT := sx("select", sx("val_"+ms, snap), kT)
+	tup := in.Type().(*types.Tuple)
+	return &Val{T: in.Type(), Tup: []*Val{{T: tup.At(0).Type(), S: okT}, x.valOf(s, mt.Key(), kT), x.valOf(s, mt.Elem(), vT)}}
 }
